@@ -73,6 +73,12 @@ class AsyncWorld:
         kinds = rng.sample(pool, k)
         if not any(x in ASYNC_KINDS for x in kinds):
             kinds.append(rng.choice(ASYNC_KINDS))
+        if mode == 'ref' and rng.random() < 0.25:
+            # typed targets: a result can be rejected by the parameter when it is applied (the evaluation then counts for nothing)
+            cfg['typed'] = True
+            kinds = [x for x in kinds if x != 'pref'] or ['coro']
+            if not any(x in ASYNC_KINDS for x in kinds):
+                kinds.append('coro')
         cfg['kinds'] = sorted(kinds)
         n_ops = min(90 if big else 60, 4 + int(rng.expovariate(1 / (22.0 if big else 14.0))))
         ops = []
@@ -129,6 +135,8 @@ class AsyncWorld:
                 out = 'skip'
             elif 'end_raise' in cfg['faults'] and kind not in ('coro', 'bcoro') and rng.random() < 0.15:
                 out = 'end_raise'
+            elif cfg.get('typed') and kind in ('coro', 'bcoro') and rng.random() < 0.3:
+                out = 'invalid'
             d['out'] = out
             d['sleep'] = rng.choice([0.5, 5, 60]) if ('sleep' in cfg['faults'] and rng.random() < 0.25) else 0
         return d
@@ -292,6 +300,11 @@ class _Run:
                         raise RuntimeError('injected awaitable failure')
                     if outcome == 'skip':
                         raise Skip()
+                    if outcome == 'invalid' and run.cfg.get('typed'):
+                        ev.ended = 'ok'
+                        run.log(f"DONE a{aid} x={x} -> a value the parameter rejects")
+                        run.out.stats['fault.result_rejected_by_parameter'] += 1
+                        return 424242
                     val = f"a{aid}.x{x}.0"
                     ev.items.append(val)
                     ev.ended = 'ok'
@@ -368,7 +381,10 @@ class _Run:
         Src = type('Src', (param.Parameterized,), {'x': param.Parameter(default=0)})
         ns = {}
         for pn in PNAMES[:cfg['n_params']]:
-            ns[pn] = param.Parameter(default=None, allow_refs=True)
+            if cfg.get('typed'):
+                ns[pn] = param.String(default=None, allow_None=True, allow_refs=True)
+            else:
+                ns[pn] = param.Parameter(default=None, allow_refs=True)
         Tgt = type('Tgt', (param.Parameterized,), ns)
         self.src = Src()
         self.xcount = 0
